@@ -2294,7 +2294,8 @@ func tokenTypes() []simplexer.TokenType{
 		t(INT, `([0-9][0-9_]*[0-9]|[0-9]+)`),
 		t(CHAR_STR, `\?(\\[snt\\]|[^\r\n\\])`),
 		t(BACKQUOTE_STR, "`(\\\\`|[^`])*`"),
-		t(HEAD_STR_PIECE, `"(\\\"|[^\"\n\r#])*#\{`),
+		// NOTE: `#` is a character of the str unless `{` follows it
+		t(HEAD_STR_PIECE, `"(\\\"|[^\"\n\r#]|#+(\\\"|[^\"\n\r#\{]))*#+\{`),
 		t(DOUBLEQUOTE_STR, `"(\\\"|[^\"\n\r])*"`),
 		// NOTE: lexer deals with multiline chain
 		// (if parser does, shift/reduce conflict occurs)
@@ -2368,8 +2369,8 @@ func embeddedStrTokenTypes() []simplexer.TokenType {
 	// (otherwise, func call like `{|x| x}("a")` is wrongly lexed to
 	// TAIL_STR_PIECE)
 	return []simplexer.TokenType{
-		t(MID_STR_PIECE, `\}(\\\"|[^\"\n\r#])*#\{`),
-		t(TAIL_STR_PIECE, `\}(\\\"|[^\"\n\r#])*"`),
+		t(MID_STR_PIECE, `\}(\\\"|[^\"\n\r#]|#+(\\\"|[^\"\n\r#\{]))*#+\{`),
+		t(TAIL_STR_PIECE, `\}(\\\"|[^\"\n\r#]|#+(\\\"|[^\"\n\r#\{]))*#*"`),
 	}
 }
 
